@@ -266,7 +266,7 @@ def gen(ctx):
     for p in range(0, 70):
         e = tlv(0x30, bytes.fromhex("06052a03040506") + tlv(0x04, bytes(p + 1)))
         add("certck " + cert_line(2, b"\x05", small, NOW - 1000, NOW + 100000, small, 2, b"", b"", e + KU, 1), "certck:tbs-len:~256")
-    for p in range(65250, 65330, 2 if not thorough else 1):
+    for p in range(65536 - 290, 65541):        # every enclosing element (OCTET STRING, Extension, SEQUENCE, [3], TBS, Certificate) passes 65535/65536 exactly once
         e = tlv(0x30, bytes.fromhex("06052a03040506") + tlv(0x04, bytes(p)))
         add("certck " + cert_line(2, b"\x05", small, NOW - 1000, NOW + 100000, small, 2, b"", b"", e + KU, 1), "certck:tbs-len:~65536")
     # request attributes and revoked lists at the same boundaries
@@ -288,6 +288,32 @@ def gen(ctx):
             for outer in range(8):
                 for mode in ("good", "random", "corrupt"):
                     add("sigalg %s %d %d %s" % (kind, inner, outer, mode), "sigalg:%s:inner%d:outer%d:%s" % (kind, inner, outer, mode))
+    # --- x509_cert_check_crl through its own entry point (HTTP transport scripted): clean exactly when fetched, fresh,
+    #     same issuer, verifies under the CA and the serial is not listed
+    for rep in range(6 if not thorough else 40):
+        es = entries(r.choice([0, 1, 3, 10]))
+        sers = [bytes.fromhex(e.split(":")[0]) for e in es]
+        lst_ = ",".join(es) if es else "-"
+        mine = bytes([0x42]) + r.bytes(7)
+        listed = (sers[r.below(len(sers))].lstrip(b"\x00") or b"\x00") if sers else None
+        for serial, sc in ((mine, "unlisted"), (listed, "listed")):
+            if serial is None:
+                continue
+            variants = [("ca", 1, "fresh", -1, 1, "ok", "good")] + [
+                ("other", 1, "fresh", -1, 1, "ok", "other-issuer"), ("ca", 2, "fresh", -1, 1, "ok", "forged-signature"),
+                ("ca", 1, "expired", -1, 1, "ok", "expired"), ("ca", 1, "future", -1, 1, "ok", "not-yet"),
+                ("ca", 1, "fresh", -1, 0, "ok", "no-distribution-point"), ("ca", 1, "fresh", -1, 1, "fail", "fetch-fails")]
+            variants += [("ca", 1, "fresh", f, 1, "ok", "bitflip") for f in (0, 3, 50, 200, 400, 600, 800, 900, 950, 990, 999)]
+            for iss, sk, when, flip, dp, fetch, nm in variants:
+                add("crlcheck %s %s %s %d %s %d %d %s" % (serial.hex(), lst_, iss, sk, when, flip, dp, fetch), "crlcheck:%s:%s" % (sc, nm))
+        if sers:   # prefix / extension of a listed serial is not listed
+            canon = sers[0].lstrip(b"\x00") or b"\x00"
+            add("crlcheck %s %s ca 1 fresh -1 1 ok" % ((canon + b"\x00").hex(), lst_), "crlcheck:extended-serial")
+            if len(canon) > 1:
+                add("crlcheck %s %s ca 1 fresh -1 1 ok" % (canon[:-1].hex(), lst_), "crlcheck:prefix-serial")
+    # --- issuing functions keep no shared scratch state: two threads, different inputs, results compared with the solo run
+    for kind in ("aki", "ski", "eku", "crldp", "aia", "nc", "name"):
+        add("threads %s %d" % (kind, 30000 if not thorough else 300000), "threads:%s" % kind)
     # --- every single-bit modification of an issued object must fail verification
     step = 3 if not thorough else 1
     flips = []
@@ -298,6 +324,10 @@ def gen(ctx):
         flips.append(("flipall crl %d %d 1 %s %d %d %s - 1" % (step, off, hexs(CA), NOW, NOW + 86400, ",".join(entries(2))), "flip:crl:offset%d" % off))
     flips.append(("flipall cert %d 1 " % (7 if not thorough else 1) + cert_line(2, bytes([0x80] * 20), name_der(r, 3), UTC_MAX, UTC_MAX + 9, name_der(r, 3), 3, bytes(5), bytes(7), ex, 2), "flip:cert:uids-generalizedtime"))
     return cases, flips
+
+
+# a legitimate configuration of the library: sm2sign-with-sm3 AlgorithmIdentifiers carry NULL parameters
+core.VARIANTS.setdefault("sm2null", (core.SAN_FLAGS, ["-DENABLE_SM2_ALGOR_ID_ENCODE_NULL=ON"]))
 
 
 def oracle_flip(a):
@@ -311,13 +341,22 @@ def run(ctx):
         ctx.violation("correspondence:model-build", "extracted model does not build: " + log[-500:], {"kind": "correspondence", "log": log[-3000:]}, False)
         return finish(ctx)
     cases, flips = gen(ctx)
-    for v in (["asan"] if ctx.tier == "quick" else ["asan", "small"]):
+    for v in (["asan", "sm2null"] if ctx.tier == "quick" else ["asan", "small", "sm2null"]):
         exe, log = core.build_harness("C15", v)
         if exe is None:
             core.harness_build_failed(ctx, log)
             continue
         keys, _ = core.run_lines(exe, ["keys"], shards=1)
         os.environ["C15_KEYS"] = keys[0]
+        os.environ["C15_SM2_NULL"] = "1" if v == "sm2null" else "0"
+        if v == "sm2null":
+            # the objects that carry AlgorithmIdentifiers; a third of the plain certificate cases in the quick tier
+            sub = [c for n, c in enumerate(cases) if c[0].split(" ", 1)[0] in ("req", "crl", "sigalg", "certck")
+                   or (c[0].startswith("cert ") and (ctx.tier != "quick" or n % 3 == 0))]
+            core.differential(ctx, [(l, k + "@sm2null") for (l, k) in sub], exe, model, variant=v)
+            core.differential(ctx, [(l, k + "@sm2null") for (l, k) in flips], exe, model, variant=v, shards=min(len(flips), 10),
+                              oracle=lambda line, a, b: oracle_flip(a))
+            continue
         core.differential(ctx, cases, exe, model, variant=v)
         core.differential(ctx, flips, exe, model, variant=v, shards=min(len(flips), 10),
                           oracle=lambda line, a, b: oracle_flip(a))
